@@ -235,7 +235,7 @@ def _own_signal_identified(path, index, handler, fn) -> bool:
     return False
 
 
-def _check_signal_lifecycles(check, an: Analysis, wrapper):
+def _check_signal_lifecycles(check, an: Analysis, wrapper, rule: str = 'P', only=None):
     created = []
     for fn, frame in rules.all_frames(an):
         if isinstance(fn.node, ast.Lambda):
@@ -246,17 +246,19 @@ def _check_signal_lifecycles(check, an: Analysis, wrapper):
                     if term[0] == 'cls' and an.p.is_subclass(term[1], CORE_INTERRUPT):
                         created.append((fn, node, term[1]))
     for fn, node, cls in created:
+        if only is not None and not only(fn, cls):
+            continue
         where = '%s:%d' % (fn.module.relpath, node.lineno)
         construct = '%s:%s(...)' % (short(fn.qn), cls.rsplit('.', 1)[-1])
         holder = _assigned_to(fn, node)
         if holder is None:
-            check.instance('P', construct, False, where,
+            check.instance(rule, construct, False, where,
                            'a signal is created but not kept: it can never be revoked')
             continue
         kind, name = holder
         if kind == 'attr':
             ok = fn.name == '__init__' and name in ('_cancel_self', '_interrupt')
-            check.instance('P', construct, ok, where,
+            check.instance(rule, construct, ok, where,
                            'attribute-held scope signal `%s`: released by '
                            '_disable_interrupts on every exit (C04/P, C07/P)' % name,
                            nontrivial=False)
@@ -289,7 +291,7 @@ def _check_signal_lifecycles(check, an: Analysis, wrapper):
                                 x.kind in ('call', 'enter') and isinstance(x.node, ast.Call)
                                 and ast.unparse(x.node.func) == '%s.revoke' % var
                                 for x in path.events[i:j])
-            check.instance('P', construct, ok_reg and revoked and body_ok, where,
+            check.instance(rule, construct, ok_reg and revoked and body_ok, where,
                            'registered before scheduling (%s); every terminal path of the '
                            'wrapper revokes all registered cancellations (%s, %s)' % (
                                ok_reg, revoked, body_ok), analysed=len(paths))
@@ -317,11 +319,14 @@ def _check_signal_lifecycles(check, an: Analysis, wrapper):
             if armed is not None:
                 verdict = False
                 bad = bad or (path, armed)
-        check.instance('P', construct, verdict and n > 0, where,
+        check.instance(rule, construct, verdict and n > 0, where,
                        'local signal `%s` is disarmed on every exit after it was armed '
                        '(%d armings on %d paths)' % (name, n, len(paths)),
                        path=rules.path_lines(*bad) if bad else None, analysed=len(paths))
-    check.floor('P', 6, 'signal creation sites')
+    if only is None:
+        check.floor(rule, 6, 'signal creation sites')
+    else:
+        check.floor(rule, 1, 'signal creation sites')
 
 
 def _assigned_to(fn, call):
